@@ -66,7 +66,7 @@ def explore_task(modname, taskname):
         # a runaway exploration ends as MemoryError (-> engine error, exit 3 = undecided) instead of taking the machine down
         import resource
         lim = int(os.environ.get("PYVC_MEM_GB", "10")) << 30
-        resource.setrlimit(resource.RLIMIT_AS, (lim, lim))
+        resource.setrlimit(resource.RLIMIT_AS, (lim, resource.getrlimit(resource.RLIMIT_AS)[1]))   # soft limit only: tools run as sub-processes lift it
     except Exception:
         pass
     mod = importlib.import_module(modname)
